@@ -716,6 +716,11 @@ func hasReplayRecv(c *Contract) bool {
 // run an in-package test injected through an overlay; returns combined output and the JSON object printed after marker
 var overlayTestTimeout = 60 // seconds
 
+// overlayTestScratchCwd: compile the test binary and run it in a scratch directory instead of the package
+// directory (bounded runs: some packages' test files write files next to themselves from init(), which must not
+// dirty /repo)
+var overlayTestScratchCwd = false
+
 var replayOverlay map[string][]byte // extra overlay (selftest mutants): the replay then runs the mutated code
 
 func runOverlayTest(pkgDir, fileName, src, testName, marker string) (string, map[string]interface{}) {
@@ -738,6 +743,11 @@ func runOverlayTest(pkgDir, fileName, src, testName, marker string) (string, map
 	of := filepath.Join(tmp, "overlay.json")
 	os.WriteFile(of, ob, 0644)
 	cmd := exec.Command("sh", "-c", fmt.Sprintf("ulimit -v 8000000; exec go test -tags verif -overlay %s -vet=off -count=1 -v -timeout %ds -run '^%s$' .", of, overlayTestTimeout, testName))
+	if overlayTestScratchCwd || filepath.Base(pkgDir) == "merkle" { // merkle's test init() rewrites a tracked file in its cwd
+		run := filepath.Join(tmp, "run")
+		os.MkdirAll(run, 0755)
+		cmd = exec.Command("sh", "-c", fmt.Sprintf("ulimit -v 8000000; go test -tags verif -overlay %s -vet=off -c -o %s/t.test . && cd %s && exec ./t.test -test.v -test.count=1 -test.timeout %ds -test.run '^%s$'", of, run, run, overlayTestTimeout, testName))
+	}
 	cmd.Dir = pkgDir
 	cmd.Env = append(goEnv(), "CGO_LDFLAGS=-Wl,--unresolved-symbols=ignore-all", "CGO_LDFLAGS_ALLOW=.*")
 	out, _ := cmd.CombinedOutput()
